@@ -291,10 +291,12 @@ def lifecycle(ctx: Ctx):
     cached = ctx.__dict__.get("_lifecycle")
     if cached is not None:
         return cached
-    res = {"undecided": None, "findings": {k: [] for k in ("atomic", "none", "switched", "layout", "fed", "unwrapped", "recorded", "exact", "ordered")},
+    res = {"undecided": None, "findings": {k: [] for k in ("atomic", "none", "switched", "layout", "fed", "unwrapped", "recorded", "exact", "ordered",
+                                                           "unparsed")},
            "facts": {}}
     T0, T1 = A.Sym("str", "TEXT0"), A.Sym("str", "TEXT1")
     try:
+        construct = explore(ctx, [T0])
         runs = explore(ctx, [T0, T1])
         again = explore(ctx, [T0, T1, T1])
         first = explore(ctx, [T0, T0])
@@ -304,6 +306,19 @@ def lifecycle(ctx: Ctx):
         return res
     F = res["findings"]
     res["facts"]["schedules"] = len(runs)
+    for r in construct:
+        if r["kind"] == "return" and not any(e[0] == "parse" for e in r["log"]):
+            why = [a.split(" at ")[0] for a in r["assume"] if a.endswith("=True")]
+            F["unparsed"].append(("__init__[text not parsed]", "an evaluator can be constructed from a text without that text being parsed: the "
+                                  f"first recompile is skipped when {'; '.join(why) or 'the skip test holds'} - i.e. when the text equals the "
+                                  "value the stored fingerprint starts with (the empty text): no error, and no experiment loaded"))
+            break
+    # runs whose history already began with such a text say nothing about ordinary texts
+    def ordinary(r_):
+        return not any("literal" in a and a.endswith("=True") for a in r_["assume"])
+    runs = [r_ for r_ in runs if ordinary(r_)]
+    again = [r_ for r_ in again if ordinary(r_)]
+    first = [r_ for r_ in first if ordinary(r_)]
 
     def sched(r):
         yes = [a.split(" at ")[0] for a in r["assume"] if a.endswith("=True")]
